@@ -32,12 +32,10 @@ package privval
 // ASSUMED: JSON encoding of the sign state and the atomic file replacement do not touch the validator's memory.
 //@ extern tmjson.MarshalIndent
 //@   assigns nothing
-//@ extern tempfile.WriteFileAtomic
-//@   assigns nothing
 
 // Save: returning normally means the file now carries exactly the in-memory sign state.
 //@ func FilePVLastSignState.Save
-//@   assigns pH, pR, pS, pSig, pSB
+//@   assigns pH, pR, pS, pSig, pSB, fsPhase, tempfile.atomicWriteFileRand
 //@   sets pH = lss.Height when true
 //@   sets pR = lss.Round when true
 //@   sets pS = lss.Step when true
@@ -46,7 +44,7 @@ package privval
 //@   atcall WriteFileAtomic path: arg0 == lss.filePath && lss.filePath != ""
 
 //@ func FilePV.saveSigned
-//@   assigns pv.LastSignState.Height, pv.LastSignState.Round, pv.LastSignState.Step, pv.LastSignState.Signature, pv.LastSignState.SignBytes, pH, pR, pS, pSig, pSB
+//@   assigns pv.LastSignState.Height, pv.LastSignState.Round, pv.LastSignState.Step, pv.LastSignState.Signature, pv.LastSignState.SignBytes, pH, pR, pS, pSig, pSB, fsPhase, tempfile.atomicWriteFileRand
 //@   ensures mem: pv.LastSignState.Height == height && pv.LastSignState.Round == round && pv.LastSignState.Step == step && pv.LastSignState.Signature == sig && pv.LastSignState.SignBytes == signBytes
 //@   ensures disk: pH == height && pR == round && pS == step && pSig == sig && pSB == signBytes
 
@@ -72,7 +70,7 @@ package privval
 // On an error nothing changes at all (message, memory, disk).
 //@ func FilePV.signVote
 //@   requires disk: pH == pv.LastSignState.Height && pR == pv.LastSignState.Round && pS == pv.LastSignState.Step && pSig == pv.LastSignState.Signature && pSB == pv.LastSignState.SignBytes
-//@   assigns vote.Signature, vote.Timestamp, pv.LastSignState.Height, pv.LastSignState.Round, pv.LastSignState.Step, pv.LastSignState.Signature, pv.LastSignState.SignBytes, pH, pR, pS, pSig, pSB
+//@   assigns vote.Signature, vote.Timestamp, pv.LastSignState.Height, pv.LastSignState.Round, pv.LastSignState.Step, pv.LastSignState.Signature, pv.LastSignState.SignBytes, pH, pR, pS, pSig, pSB, fsPhase, tempfile.atomicWriteFileRand
 //@   ensures released: result == nil ==> (
 //@     | (hrsLess(old(pv.LastSignState.Height), old(pv.LastSignState.Round), old(pv.LastSignState.Step), vote.Height, vote.Round, ite(vote.Type == 1, 2, 3)) &&
 //@     |  pv.LastSignState.Height == vote.Height && pv.LastSignState.Round == vote.Round && pv.LastSignState.Step == ite(vote.Type == 1, 2, 3) &&
@@ -91,7 +89,7 @@ package privval
 // signProposal: the same two ways, for step 1 (propose).
 //@ func FilePV.signProposal
 //@   requires disk: pH == pv.LastSignState.Height && pR == pv.LastSignState.Round && pS == pv.LastSignState.Step && pSig == pv.LastSignState.Signature && pSB == pv.LastSignState.SignBytes
-//@   assigns proposal.Signature, proposal.Timestamp, pv.LastSignState.Height, pv.LastSignState.Round, pv.LastSignState.Step, pv.LastSignState.Signature, pv.LastSignState.SignBytes, pH, pR, pS, pSig, pSB
+//@   assigns proposal.Signature, proposal.Timestamp, pv.LastSignState.Height, pv.LastSignState.Round, pv.LastSignState.Step, pv.LastSignState.Signature, pv.LastSignState.SignBytes, pH, pR, pS, pSig, pSB, fsPhase, tempfile.atomicWriteFileRand
 //@   ensures released: result == nil ==> (
 //@     | (hrsLess(old(pv.LastSignState.Height), old(pv.LastSignState.Round), old(pv.LastSignState.Step), proposal.Height, proposal.Round, 1) &&
 //@     |  pv.LastSignState.Height == proposal.Height && pv.LastSignState.Round == proposal.Round && pv.LastSignState.Step == 1 &&
